@@ -49,3 +49,14 @@ func (cc *Conn) VerifMidRetransmits() map[int32]uint32 {
 	}
 	return out
 }
+
+// VerifAux returns table sizes of the layers attached to the connection: observation keys,
+// block-wise reassembly/send cache sizes (-1 when block-wise is off) and limiter queues.
+func (cc *Conn) VerifAux() (observations []uint64, bwReceiving int, bwSending int) {
+	observations = cc.observationHandler.VerifKeys()
+	bwReceiving, bwSending = -1, -1
+	if cc.blockWise != nil {
+		bwReceiving, bwSending = cc.blockWise.VerifSizes()
+	}
+	return
+}
